@@ -103,7 +103,7 @@ func c09PointerOnlyOps(c *c09fn, vp ssa.Value) []ssa.Instruction {
 }
 
 // c09RowText says in words what a row of the variant table demands (the clause a failing row breaks).
-func c09RowText(want string, ptr string, dec bool) string {
+func c09RowText(want, known, ptr, choice, seen, nilptr string, dec bool) string {
 	switch want {
 	case "plain":
 		return "a field without selector is coded once as v.Field(i), nothing of the variant bookkeeping happens"
@@ -118,8 +118,17 @@ func c09RowText(want string, ptr string, dec bool) string {
 		}
 		return "the non-nil pointer-typed variant the selector value picks is encoded once as v.Field(i).Elem(), and the selector marked served"
 	}
-	if ptr == ">" || ptr == "<" {
+	switch {
+	case known == "F":
+		return "a variant whose selector has not been seen earlier in the struct is refused with an error, nothing is coded"
+	case ptr == ">" || ptr == "<":
 		return "a variant field whose type is not a pointer is refused with an error WHATEVER value the selector has (chosen or not), before the field is set, nil-checked or dereferenced"
+	case seen == "T":
+		return "a second variant picked by the same selector value (selector already served) is refused with an error, nothing is coded"
+	case choice == "=" && nilptr == "=":
+		return "the variant the selector value picks must not be nil: error, nothing is encoded"
+	case nilptr == ">":
+		return "a variant the selector value does not pick must be nil: a non-nil one is refused with an error"
 	}
 	return "this combination is refused with an error and nothing is coded"
 }
